@@ -523,6 +523,10 @@ class FakeLambdaClient:
         k = w.api_calls
         w.rec("api-begin", call=k, op=opname, n=n_updates, token=token, kinds=kinds)
         d = self._latency(0)
+        f = w.take_fault(lambda f: f["kind"] == "slow" and f.get("call") == k)
+        if f:
+            w.fire("slow-call")
+            d += f["s"]
         if d > 0:
             w.sim.sleep(d, True, f"api-latency({opname})")
         f = w.take_fault(lambda f: f["kind"] == "crash" and f.get("at") == "api" and f.get("call") == k
